@@ -64,7 +64,7 @@ def run(ctx):
                 "env_key_normal", "env_list_plain", "load_check_order", "load_full_refines_load",
                 "fact_crypto_backends_tls_enabled", "crypto_backend_exact", "start_files_refines", "tls_never_half",
                 "fact_secret_suffixes", "fact_load_from_flagset_shape", "fact_client_loader", "fact_sql_init", "secret_rule_regenerated", "flagset_refused_iff",
-                "flagset_reports_a_set_secret", "load_refines_flagset", "client_token_cli_refused", "client_token_never_from_cli",
+                "flagset_reports_a_set_secret", "flagset_verdict_order_independent", "flagset_refusal_monotone", "load_refines_flagset", "client_token_cli_refused", "client_token_never_from_cli",
                 "implicit_sql_refused_any_datadir", "strict_sql_opened_is_configured", "init_sql_outcomes", "lenient_default_sqlite", "start_conn_refines",
                 "strict_conn_refuses_implicit"]
     for r in required:
